@@ -6,6 +6,7 @@ package scen
 // vdrpcserver). Dial outcomes (peer down / up) are scenario parameters enumerated as data.
 
 import (
+	"crypto/tls"
 	"fmt"
 	"strings"
 	"time"
@@ -29,9 +30,16 @@ type remNode struct {
 }
 
 // newRemNode builds an engine with a real Remote listening on addr. quiet: event stream detached.
+// remTLS: the nodes of the current execution are configured WithTLS (set from the variant).
+var remTLS bool
+
 func newRemNode(addr string, quiet bool) *remNode {
 	k := &Kit{inRecv: map[string]bool{}, exitVC: map[string]vsched.VC{}, incs: map[string]int{}}
-	r := remote.New(addr, remote.NewConfig())
+	cfg := remote.NewConfig()
+	if remTLS {
+		cfg = cfg.WithTLS(&tls.Config{})
+	}
+	r := remote.New(addr, cfg)
 	e, err := actor.NewEngine(actor.NewEngineConfig().WithRemote(r))
 	if err != nil {
 		panic(err)
@@ -87,6 +95,7 @@ func engRemote(variants []remParams) vsched.Instance {
 		vnet.Reset()
 		vsched.BeginSetup()
 		down := p.FailDials >= 3
+		remTLS = p.TLS
 		a = newRemNode(remAddrA, (!down && !p.Restart) || p.NoEvents)
 		b = newRemNode(remAddrB, true)
 		spawnTargets = func(n *remNode) {
@@ -373,12 +382,12 @@ func down(p remParams) bool { return p.Down() }
 
 func init() {
 	up, dn, upT := rparams.Up, rparams.Dn, rparams.UpLarge
-	Register(&Job{Name: "C17/remote/peer-up", Prop: "C17", Bound: 1, BoundT: 2, Budget: 60, BudgetT: 900, Shards: 12, DumpOutcomes: true,
+	Register(&Job{Name: "C17/remote/peer-up", Prop: "C17", Bound: 1, BoundT: 2, Budget: 60, BudgetT: 900, Shards: 13, DumpOutcomes: true,
 		Desc: "two real engines with real Remote/router/writer/reader over the in-memory transport: 1-2 sender threads x 1-3 messages to 1-2 actors on the peer (with/without sender PID), an actor sender, a request/response pair, 0-2 failing dial attempts inside the writer's retry loop: exactly-once, right target and sender, per-sender order, reply reaches the requester, no unreachable event",
 		Make: func() vsched.Instance { return engRemote(up) }})
 	Register(&Job{Name: "C17/remote/peer-down", Prop: "C17", Bound: 1, BoundT: 2, Budget: 35, BudgetT: 900, Shards: 4, DumpOutcomes: true,
 		Desc: "the peer refuses all 3 dial attempts of the first (and second) connection attempt: RemoteUnreachableEvent once per failed attempt, every message handed to that attempt dead-lettered exactly once (conservation: delivered xor dead-lettered), a send after the episode settled triggers a fresh dial and arrives once the peer is up",
 		Make: func() vsched.Instance { return engRemote(dn) }})
-	Register(&Job{Name: "C17/remote/peer-up-large", Prop: "C17", Tier: "thorough", Bound: 1, BoundT: 2, Budget: 50, BudgetT: 900, Shards: 18, DumpOutcomes: true,
+	Register(&Job{Name: "C17/remote/peer-up-large", Prop: "C17", Tier: "thorough", Bound: 1, BoundT: 2, Budget: 50, BudgetT: 900, Shards: 19, DumpOutcomes: true,
 		Desc: "as peer-up with 3 senders / 3 messages per sender / request + actor sender", Make: func() vsched.Instance { return engRemote(upT) }})
 }
